@@ -32,12 +32,12 @@ ASSUMPTIONS = [
     "VirtualBox disks that are not (type Normal, format VDI) or that carry no type attribute are 'unspecified': they may or may not be listed",
     "held means: held on the executions listed, not verified for all configurations",
 ]
-MINIMA = {"quick": {"documents": 2000, "vmx_bus_unit_collisions": 50, "ovf_removable_items_pointing_at_disks": 50}, "thorough": {"documents": 50000}}
+MINIMA = {"quick": {"documents": 2000, "vmx_bus_unit_collisions": 50, "ovf_removable_items_pointing_at_disks": 50}, "thorough": {"documents": 300000}}
 MECH = "config.disks"
 
 
 def plan(tier: str, seed: int) -> list[dict]:
-    n = 130 if tier == "quick" else 3000
+    n = 130 if tier == "quick" else 20000
     return [{"syntax": s, "i": i} for s in ("vmx", "ovf", "vbox", "pvs") for i in range(n)]
 
 
